@@ -72,7 +72,8 @@ theorem term_parsers_never_panic (po : POps) : ∀ f : Nat,
         intro _ _
         apply Res.bind_ne_panic (ihT _)
         intro _ _; simp
-      · exact ihM _ _ _ _
+      · refine Res.bind_ne_panic (checkQuotes_ne_panic (fun hn he => ?_)) (fun _ _ => ihM _ _ _ _)
+        rw [he] at hn; exact hn rfl
     · intro s a b c
       simp only [makeTerm]
       split
